@@ -782,7 +782,7 @@ async fn status_json() -> Value {
     let mut last = stamp(&read(&path));
     let mut changes = 0;
     let t0 = std::time::Instant::now();
-    while t0.elapsed() < Duration::from_secs(5) {
+    while t0.elapsed() < Duration::from_secs(20) {
         tokio::time::sleep(Duration::from_millis(1)).await;
         let cur = read(&path);
         let ts = stamp(&cur);
@@ -803,7 +803,7 @@ async fn status_json() -> Value {
             }
         }
     }
-    json!({"error": format!("status.json in {} was not rewritten twice within 5 s", dir.display())})
+    json!({"error": format!("status.json in {} was not rewritten twice within 20 s", dir.display())})
 }
 
 fn snapshot_json() -> Value {
